@@ -137,12 +137,29 @@ pub fn ls_stats(a: &Args) {
                 let mut ls = Ls::new(&dir);
                 ls.initialize();
                 let uri = "untitled:Untitled-1";
-                let text = ["This is teh first an test.", "Line one teh.\nLine \"two\" an apple\ttab.", "An 😀 emoji teh and wich."][rng.below(3)];
+                // the first session of a run is a very busy one: a lint whose context is a whole 300-word sentence,
+                // recorded forty times (several megabytes to append at shutdown)
+                let busy = n == 0 && _incarnation == 0;
+                let long_text = format!("{}.", (0..300).map(|k| ["the", "quick", "brown", "fox", "jumps", "over", "lazy", "dogs", "and", "runs"][k % 10]).collect::<Vec<_>>().join(" "));
+                let text: &str = if busy { &long_text } else { ["This is teh first an test.", "Line one teh.\nLine \"two\" an apple\ttab.", "An 😀 emoji teh and wich."][rng.below(3)] };
                 let h = ls.did_open(uri, "plaintext", text);
                 ls.run_to_completion(h, Duration::from_secs(20));
                 let diags = ls.last_publish(uri).cloned().unwrap_or(json!([]));
                 let mut recorded = 0;
-                for d in diags.as_array().cloned().unwrap_or_default().iter().take(rng.range(0, 3)) {
+                if busy {
+                    // the command's argument is the serialised record; a context of 300 word tokens makes ~70 kB per record
+                    use harper_core::{Document, FstDictionary, parsers::PlainEnglish};
+                    let dict = FstDictionary::curated();
+                    let doc = Document::new(&long_text, &PlainEnglish, &dict);
+                    let context: Vec<harper_core::FatStringToken> = doc.get_tokens().iter().map(|t| t.to_fat(doc.get_source()).into()).collect();
+                    let kind = harper_stats::RecordKind::Lint { kind: harper_core::linting::LintKind::Readability, context };
+                    let arg = serde_json::to_string(&kind).unwrap();
+                    for _ in 0..(2_600_000 / arg.len() + 1) {
+                        ls.call("workspace/executeCommand", json!({"command": "HarperRecordLint", "arguments": [arg]}), true);
+                        recorded += 1;
+                    }
+                }
+                for d in diags.as_array().cloned().unwrap_or_default().iter().take(if busy { 0 } else { rng.range(0, 3) }) {
                     let res = ls.call("textDocument/codeAction", json!({"textDocument": {"uri": uri}, "range": d["range"], "context": {"diagnostics": []}}), true);
                     if let Some(acts) = res.as_ref().and_then(|r| r.as_array()) {
                         if let Some(cmd) = acts.iter().find_map(|x| x.get("command").filter(|c| c.is_object() && c["command"] == "HarperRecordLint")) {
